@@ -19,7 +19,6 @@ package loader
 import (
 	"fmt"
 	"path"
-	"strconv"
 	"strings"
 
 	"github.com/compose-spec/compose-go/v2/types"
@@ -258,6 +257,10 @@ func setNameFromKey(dict map[string]any) {
 }
 
 func isTrue(x any) bool {
-	parseBool, _ := strconv.ParseBool(fmt.Sprint(x))
-	return parseBool
+	// same spellings as the boolean cast applied to this attribute when interpolation is on
+	parseBool, err := toBoolean(fmt.Sprint(x))
+	if err != nil {
+		return false
+	}
+	return parseBool.(bool)
 }
